@@ -418,6 +418,43 @@ def gen_short_payload(rng, cat):
     return cases
 
 
+def gen_periodic(rng, cat, R, M, quick):
+    """period-READ repetition: a block-sized chunk X repeated, the file ending in a copy of X cut inside one of its
+    messages — the bytes the truncated message lacks are present exactly READ bytes earlier (and 2*READ, ...), so any
+    state carried from a worker's previous block (a reused read buffer, a cached header) completes it wrongly; plus
+    messages straddling every k*READ whose continuation differs from period to period.  The truncated message is not
+    a message of the file: the index must not list it, for any worker count."""
+    cases = []
+    small = R < 1000
+    if small:
+        placements = [(a, sz) for sz in (24 + 1, 30, 40, M) for a in range(0, R - sz + 1, 1 if not quick else 3)]
+    else:
+        placements = [(M + 100, 1024), (M + 101, 200), (R // 2 + 1, M), (R - 3000, 2048), (R - 40, 40), (20000, 140 + 24)]
+    for a, sz in placements:
+        x = layout([(a, sized_msg(sz, mtype=10000 + (a % 7)))] + ([(0, cat_msg(rng, cat, maxpay=min(M - 24, a - 24)))] if a >= 48 else []),
+                   R, ('z', 0) if (a + sz) % 2 else ('r', 31 + a))
+        if F.seg_len(['p', x, 1]) != R:
+            continue
+        cuts = sorted({a + 24, a + 25, a + sz - 1, a + (24 + sz) // 2})
+        for cut in cuts:
+            if not (a + 24 <= cut < a + sz) or cut < M:      # complete header, incomplete message, last block is searched
+                continue
+            for n in ((1, 2) if quick and not small else (1, 2, 3, 5)):
+                if quick and small and (a + cut + n) % 2:
+                    continue
+                cases.append({'kind': 'periodic:truncated-copy', 'recipe': [['p', x, n], ['t', x, cut]]})
+    # messages straddling every boundary, different continuation per period, last one cut by EOF
+    for d in ((1, 5, 23, 24, 30) if not quick else (5, 24)):
+        for nb in (2, 3, 4):
+            sz = min(M, 200) if not small else 40
+            items = [(k * R - d, F.msg(10001, [['z', sz - 24, (17 * k) & 255]], seq=k)) for k in range(1, nb + 1)]
+            total = nb * R - d + max(24, min(sz - 1, d + 3))
+            segs = layout(items[:-1], nb * R - d, ('z', 0))
+            segs.append(['t', [items[-1][1]], total - (nb * R - d)])
+            cases.append({'kind': 'periodic:straddle', 'recipe': segs})
+    return cases
+
+
 REGISTERED = []
 SUPPORTING = True
 
@@ -537,6 +574,7 @@ def gen_small_exhaustive(rng, cat, quick):
     cases += [dict(c, kind='small:' + c['kind']) for c in gen_overlap(rng, cat, R, M, 150 if quick else 1500)]
     cases += [dict(c, kind='small:' + c['kind']) for c in gen_nested(rng, cat, R, M, 60 if quick else 600)]
     cases += [dict(c, kind='small:' + c['kind']) for c in gen_undecodable(rng, cat, R, M, 60)]
+    cases += [dict(c, kind='small:' + c['kind']) for c in gen_periodic(rng, cat, R, M, quick)]
     cases += [dict(c, kind='small:' + c['kind']) for c in gen_tails(rng, cat, R, M)]
     cases += [dict(c, kind='small:' + c['kind']) for c in gen_boundary_max(rng, cat, R, M)]
     cases += [dict(c, kind='small:' + c['kind']) for c in gen_trunc(rng, cat, R, M)]
@@ -692,6 +730,7 @@ def run(ctx):
     real += gen_stamps(rng, cat)
     real += gen_short_payload(rng, cat)
     real += gen_undecodable(rng, cat, R, M, 120)
+    real += gen_periodic(rng, cat, R, M, quick)
     real += gen_trunc(rng, cat, R, M)
     real += gen_tails(rng, cat, R, M) if not quick else gen_tails(rng, cat, R, M)[::2]
     real += gen_boundary(rng, cat, R, M, deltas if not quick else deltas[::2] + [-24, -23, -1, 1, 23, 25], [2, 3, 4, 5, 6, 2, 3], quick)
@@ -754,7 +793,7 @@ def run(ctx):
         'are compared with the extracted MODEL run with the same constants and, when every CRC-valid candidate of the file is <= MAX (the '
         'property\'s precondition), with the extracted SPEC; independently of the precondition every entry must be a complete CRC-valid message '
         'and no call may raise. MAIN run, real constants READ=%d MAX=%d: files of 1-6 blocks with messages / sync words whose start or end is at '
-        'k*READ+d and k*READ+MAX+d for d in [-25,25] (%s), tails 0..MAX+25 and READ-1 after 0-2 blocks, 0..29-byte files, messages cut by EOF, '
+        'k*READ+d and k*READ+MAX+d for d in [-25,25] (%s), tails 0..MAX+25 and READ-1 after 0-2 blocks, 0..29-byte files, messages cut by EOF, period-READ repetition (a block-sized chunk repeated, the file ending in a copy cut inside a message whose missing bytes sit exactly READ earlier; straddling messages whose continuation differs per period), '
         'CRC-of-truncated-slice headers at EOF and at the end of a read buffer, wrappers with nested messages across boundaries, the #15 overlap '
         'construct, stamps around 2^32 s and rounding, for EVERY registered message type CRC-valid messages with empty / too short / garbage payloads (struct-based, construct-based and non-packable classes) in ordinary positions and across block boundaries, messages > MAX and > 65535 B, random mixes of all %d '
         'packable classes with junk, false syncs, corrupt CRCs, non-zero reserved bytes. SUPPORTING run (module constants patched to READ=64, MAX=48 '
